@@ -176,6 +176,7 @@ props["C19"] = {
         run("root", "VxC19Select", {"SNAPS": 3}, {"SNAPS": 3}),
         run("root", "VxC19Restore", {"IDX": 2}, {"IDX": 2}),
         run("root", "VxC19Arbitrate", {}, {}),
+        run("root", "VxC19Generations", {"GENS": 2}, {"GENS": 3}, note="RestoreV3 over several generations listed by name: newest eligible snapshot across generations, its WAL, or an error"),
     ],
     "assumptions": [
         "a backend lists WAL segments sorted by (index, offset) and snapshots by index (interface contract of ReplicaClientV3)",
@@ -210,6 +211,7 @@ props["C05"] = {
         run("root", "VxC05Sync", {"N": 2, "R": 2}, {"N": 3, "R": 3}),
         run("root", "VxC05Limited", {"N": 3}, {"N": 4}),
         run("root", "VxC05Compact", {"K": 2}, {"K": 3}),
+        run("root", "VxC05Monitor", {"N": 2}, {"N": 3}, note="the background upload loop under faults that wrap context errors: keeps running, catches up"),
     ],
     "assumptions": [
         "each ReplicaClient call independently draws one of: ok, error before any effect, error after consuming part of the upload, error after the effect took place; listings and downloads: ok or error",
@@ -284,6 +286,7 @@ props["C13"] = {
         run("root", "VxC13Lag", {}, {}),
         run("root", "VxC13Idle", {}, {}),
         run("root", "VxC13Busy", {}, {}),
+        run("root", "VxC13Rounds", {"ONEPS": 1}, {}, note="the real syncLocked over a burst round (checkpoint possibly refused) and an idle round: a skipped checkpoint is retried"),
     ],
     "assumptions": [
         "E-CKPT: with no application transaction pinned, a checkpoint issued by litestream backfills the whole WAL and the following _litestream_seq write restarts it, leaving exactly one frame, already copied, with syncedSinceCheckpoint = false (cross-checked against real SQLite while writing DESIGN.md, H5 probe)",
